@@ -17,11 +17,11 @@ AXIOMS_ALLOWED = []
 MODEL_NEEDS_IMPL = True      # the driver also runs the extracted trace monitors on the implementation's trace
 LEVEL = "proof"
 TIMEOUT = 1500
-REQUIRED_THEOREMS = ["C09_no_step_before_run", "C09_epochs", "C09_reset_honoured", "C09_reboot_waits_for_run",
+REQUIRED_THEOREMS = ["C09_exit_only_by_teardown_or_condition", "C09_no_step_before_run", "C09_epochs", "C09_reset_honoured", "C09_reboot_waits_for_run",
                      "C09_teardown_one_step", "C09_exited_quiescent", "C09_bounded_exit",
                      "C09_bounded_exit_run_condition_false", "C09_step_generates_reachable",
                      "C09_schedule_words_reachable", "C09_every_word_ends_exited", "C09_monitors_hold",
-                     "C09_teardown_hang_refuted"]
+                     "C09_teardown_hang_refuted", "C09_relational_semantics_agree", "C09_reboot_store_order_refuted"]
 RULE = ("schedule words over {T, F (thread move, run_condition true/false), Run, Reset, Reboot, Teardown, IsRunning, StepNumber, Wait}: "
         "(1) every word up to a length bound over the tokens enabled in the model state reached (disabled tokens, F outside run_condition and "
         "queries dropped: is_running()/step_number() are observed after every token anyway); (2) every word Run.w with w up to a longer bound "
@@ -53,8 +53,12 @@ LEVEL_NOTE = ("What the model cannot exhibit: pre-emption inside libstdc++ (insi
               "(a run() between that store and the return of the thread function counts as 'after the thread had ended'). The pre-fix teardown "
               "(plain store, no notify) is kept in coq/C09_Regress.v with the proof that it hangs (C09_teardown_hang_refuted).")
 
-ENUM = {"quick": [("e", 6, 6, 6, []), ("p", 12, 2, 1, ["Run"])],
-        "thorough": [("e", 8, 8, 8, []), ("p", 18, 2, 2, ["Run"]), ("q", 14, 3, 1, ["Run"])]}
+# prefixes: P2 = a reset requested inside step 1, thread back at the loop top (second epoch about to start, counter = 2);
+#           P3 = inner loop left on a false run_condition, outer condition true: new epoch without reset
+P2 = "Run T T T T T T T Reset T T T T".split()
+P3 = "Run T T T T T T F T T".split()
+ENUM = {"quick": [("e", 6, 6, 6, []), ("p", 12, 2, 1, ["Run"]), ("s", 9, 2, 1, P2), ("t", 8, 2, 1, P3)],
+        "thorough": [("e", 8, 8, 8, []), ("p", 18, 2, 2, ["Run"]), ("q", 14, 3, 1, ["Run"]), ("s", 12, 3, 1, P2), ("t", 12, 3, 1, P3)]}
 RANDOM = {"quick": 600, "thorough": 4000}
 STRESS = {"quick": 40, "thorough": 1500}
 ALPHABET = [("T", 50), ("F", 5), ("Run", 10), ("Reset", 8), ("Reboot", 6), ("Teardown", 2), ("IsRunning", 7), ("StepNumber", 7), ("Wait", 5)]
@@ -96,7 +100,7 @@ def generate(rng, tier):
         meta = {"src": "stress", "seed": rng.randint(1, 2 ** 31), "n": rng.choice([10, 30, 60, 120]),
                 "pause_us": rng.choice([0, 20, 100, 300]), "pfalse": rng.choice([0, 0, 5, 50, 300]),
                 "step_us": rng.choice([5, 20, 50])}
-        cases.append(caseio.Case("s%d" % k, "stress", meta))
+        cases.append(caseio.Case("z%d" % k, "stress", meta))
     return cases
 
 
@@ -109,7 +113,7 @@ def nontrivial(c):
     return None
 
 
-FIELDS = ["obs", "trace", "exited", "final_running", "final_step"]
+FIELDS = ["obs", "end_loc", "trace", "exited", "final_running", "final_step"]
 
 
 def compare(c, impl, model):
@@ -119,6 +123,9 @@ def compare(c, impl, model):
 
 
 def _last_loc(impl):
+    e = impl.get("end_loc")
+    if e:
+        return e[0]
     obs = impl.get("obs") or []
     return obs[-1].split(":")[0] if obs else "free-running"
 
@@ -140,6 +147,11 @@ def oracle(c, impl, model):
                   % " ".join(c.get("w") if c.has("w") else [])))
     if impl.get("exited") != 1:
         v.append(("C09:wait-did-not-return-after-teardown:%s" % loc, "teardown() was requested with the thread at '%s' and wait() did not return within 2 s" % loc))
+    tr = impl.get("trace") or []
+    if impl.get("exited") == 1 and impl.get("final_running") == 1 and "exit" in tr and c.kind == "word":
+        after = tr[len(tr) - 1 - tr[::-1].index("exit"):]
+        if "run" not in after:
+            v.append(("C09:running-after-exit-without-run", "the thread has ended, run was not requested afterwards, and is_running() reports true; trace: %s" % " ".join(tr[:80])))
     if model is not None and model.has("impl_good") and model.get("impl_good") != 1:
         bad = model.get("impl_bad") or ["?"]
         v.append(("C09:trace:%s" % bad[0], "the implementation's event trace violates the lifecycle monitor: %s; trace: %s"
@@ -159,10 +171,62 @@ def histogram(cases):
     return h
 
 
+# ---- transcription check of the controller methods -------------------------------------------------
+# The scheduler can place commands only between whole calls of run()/reboot()/teardown()/reset(); what
+# the model assumes about the INSIDE of these calls (which stores, in which order, under the mutex,
+# followed by a notify) is compared with the source text.  Fails closed: an unknown statement is a difference.
+EXPECTED_SHAPE = {
+    "run": [["lock", "run_=true", "notify"]],
+    "reboot": [["lock", "reset_=true", "run_=false", "notify"], ["lock", "reset_=true", "run_=false"]],
+    "teardown": [["lock", "teardown_=true", "notify", "return true"]],
+    "reset": [["reset_=true"]],
+}
+
+
+def method_shape(src, name):
+    import re
+    m = re.search(r"FilteringAlgorithm::%s\s*\(\s*\)\s*\{(.*?)\n\}" % name, src, re.S)
+    if not m:
+        return None
+    body = re.sub(r"//[^\n]*|/\*.*?\*/", "", m.group(1), flags=re.S)
+    out = []
+    for st in [x.strip() for x in body.split(";")]:
+        if not st:
+            continue
+        st = re.sub(r"\s+", " ", st)
+        if re.fullmatch(r"std::(lock_guard|unique_lock)<std::mutex> \w+\(mtx_run_\)", st):
+            out.append("lock")
+        elif re.fullmatch(r"cv_run_\.notify_(one|all)\(\)", st):
+            out.append("notify")
+        elif re.fullmatch(r"(\w+_) ?= ?(true|false)", st):
+            g = re.fullmatch(r"(\w+_) ?= ?(true|false)", st); out.append("%s=%s" % (g.group(1), g.group(2)))
+        elif re.fullmatch(r"(\w+_)\.store\((true|false)\)", st):
+            g = re.fullmatch(r"(\w+_)\.store\((true|false)\)", st); out.append("%s=%s" % (g.group(1), g.group(2)))
+        else:
+            out.append(st)
+    return out
+
+
+def transcription_problems():
+    try:
+        src = open(os.path.join(build.SRC, "src", "FilteringAlgorithm.cpp")).read()
+    except OSError as e:
+        return ["cannot read FilteringAlgorithm.cpp: %s" % e]
+    probs = []
+    for name, allowed in EXPECTED_SHAPE.items():
+        sh = method_shape(src, name)
+        if sh not in allowed:
+            probs.append("FilteringAlgorithm::%s() is %s in the source but the model (coq/C09_Model.v cstep/reboot_end/teardown_now) transcribes %s"
+                         % (name, sh, allowed[0]))
+    return probs
+
+
 def main(ctx, a):
     """Standard flow (runner.main) plus the enumeration counts as evidence keys."""
     if not a.skip_proofs:
         runner.prove(ctx)
+    for pr in transcription_problems():
+        ctx.proof_problems.append("transcription: " + pr)
     if a.replay:
         cases = caseio.read_cases(a.replay)
         ctx.log("replaying %d case(s) from %s" % (len(cases), a.replay))
